@@ -21,10 +21,28 @@ func (c *octx) viol(clause, format string, a ...any) *eng.Violation {
 	return &eng.Violation{Prop: c.prop, Class: c.prop + "." + clause, Msg: fmt.Sprintf(format, a...)}
 }
 
+func (c *octx) boosted() bool {
+	for _, n := range c.sc.Nodes {
+		for _, vs := range n.Visits {
+			for _, it := range vs.Items {
+				for _, eo := range it.Exec {
+					if eo.Boost {
+						return true
+					}
+				}
+			}
+		}
+	}
+	return false
+}
+
 // terminated: the run neither panicked nor hung.
 func (c *octx) terminated() *eng.Violation {
 	if len(c.res.Panics) > 0 {
 		return c.viol("panic", "a task panicked: %s", c.res.Panics[0])
+	}
+	if c.res.Deadlock && c.prop == "C08" {
+		return c.viol("lower", "mutually dependent executions (barrier of min(c,n) items) made no progress: fewer than c items run simultaneously; %v", c.res.Blocked)
 	}
 	if c.res.Deadlock || c.res.StepLimit {
 		return c.viol("hang", "the run made no progress (no enabled task, no pending timer): %v", c.res.Blocked)
@@ -184,6 +202,14 @@ func oracle(c *octx) *eng.Violation {
 		return first(c.mainEq("path", projVisits, false), c.onlyModelVisits("off-path"), c.outcome("result", false, false))
 	case "C04":
 		return first(c.outcome("error", false, true), c.failStop("fail-stop"))
+	case "C06":
+		return first(c.slots("slot"), c.mainEq("post-once", projC06, false))
+	case "C07":
+		return first(c.lanesEq("item-trace", projFull, false), c.slots("slot"))
+	case "C08":
+		return c.inFlight("upper")
+	case "C09":
+		return first(c.stopOnError(c.boosted()), c.slotsHonest())
 	}
 	return c.viol("internal", "no oracle for %s", c.prop)
 }
@@ -248,4 +274,184 @@ func splitList(s string) []string {
 		return nil
 	}
 	return strings.Fields(s)
+}
+
+// ---- batch oracles -------------------------------------------------------------
+
+type batchView struct {
+	run  int
+	mb   *MBatch
+	evs  []simrt.Event // item events of this batch visit, log order
+	post []simrt.Event
+}
+
+func (c *octx) batchViews() []*batchView {
+	var out []*batchView
+	for i, mr := range c.mod.Runs {
+		or := c.obs.Runs[i]
+		for _, mb := range mr.Batches {
+			bv := &batchView{run: i, mb: mb}
+			for _, e := range or.All {
+				if e.N == mb.N && e.V == mb.V && isCallback(e.Kind) {
+					if e.I > 0 {
+						bv.evs = append(bv.evs, e)
+					} else if e.Kind == "post_start" {
+						bv.post = append(bv.post, e)
+					}
+				}
+			}
+			out = append(out, bv)
+		}
+	}
+	return out
+}
+
+// inFlight: C08 upper bound and sequential order.
+func (c *octx) inFlight(clause string) *eng.Violation {
+	for _, bv := range c.batchViews() {
+		limit := bv.mb.Conc
+		if limit < 1 {
+			limit = 1
+		}
+		n, maxN := 0, 0
+		nextItem := 0
+		for _, e := range bv.evs {
+			switch e.Kind {
+			case "exec_start", "fb_start":
+				n++
+				if n > maxN {
+					maxN = n
+				}
+				if n > limit {
+					return c.viol(clause, "batch node %d (concurrency %d): %d item executions in flight at seq %d", bv.mb.N, bv.mb.Conc, n, e.Seq)
+				}
+				if bv.mb.Conc <= 0 && e.Kind == "exec_start" && e.A == 1 {
+					if e.I-1 < nextItem {
+						return c.viol("sequential-order", "batch node %d (sequential): item %d started after item %d", bv.mb.N, e.I-1, nextItem-1)
+					}
+					nextItem = e.I
+				}
+			case "exec_end", "fb_end":
+				n--
+			}
+		}
+	}
+	return nil
+}
+
+// failPoint: the event at which item i has failed for good (model says Fails).
+func failPoint(bv *batchView, item int) (simrt.Event, bool) {
+	var last simrt.Event
+	found := false
+	for _, e := range bv.evs {
+		if e.I-1 == item && (e.Kind == "exec_end" || e.Kind == "fb_end") {
+			last, found = e, true
+		}
+	}
+	return last, found
+}
+
+// stopOnError: C09 (a) and (b).
+func (c *octx) stopOnError(boosted bool) *eng.Violation {
+	for _, bv := range c.batchViews() {
+		mb := bv.mb
+		if !mb.Stop {
+			continue
+		}
+		// the first failure in log order among items whose settled outcome is an error
+		var F simrt.Event
+		have := false
+		for ii, mi := range mb.Items {
+			if !mi.Fails || mi.Skipped {
+				continue
+			}
+			lane := 0
+			for _, e := range bv.evs {
+				if e.I-1 == ii {
+					lane++
+				}
+			}
+			if lane != len(mi.Lane) {
+				continue // did not run to its settled failure
+			}
+			if fp, ok := failPoint(bv, ii); ok && (!have || fp.Seq < F.Seq) {
+				F, have = fp, true
+			}
+		}
+		if !have {
+			continue
+		}
+		newOn := map[string]int{}
+		open := map[string]bool{}
+		for _, e := range bv.evs {
+			if e.Seq <= F.Seq {
+				switch e.Kind {
+				case "exec_start":
+					open[e.Task] = true
+				case "exec_end":
+					open[e.Task] = false
+				}
+				continue
+			}
+			if e.Kind != "exec_start" || e.A != 1 {
+				continue
+			}
+			if mb.Conc <= 1 {
+				return c.viol("item-started-after-failure", "batch node %d (stop on error, concurrency %d): item %d was started at seq %d after item %d had failed at seq %d", mb.N, mb.Conc, e.I-1, e.Seq, F.I-1, F.Seq)
+			}
+			if e.Task == F.Task {
+				return c.viol("failing-worker-continued", "batch node %d (stop on error): worker %s started item %d at seq %d after it had itself seen item %d fail at seq %d", mb.N, e.Task, e.I-1, e.Seq, F.I-1, F.Seq)
+			}
+			newOn[e.Task]++
+			if boosted {
+				if open[e.Task] {
+					return c.viol("new-item-after-handled-failure", "batch node %d (stop on error, failure handled first): worker %s was inside an execution when item %d failed, yet started another item (%d) afterwards", mb.N, e.Task, F.I-1, e.I-1)
+				}
+				if newOn[e.Task] > 1 {
+					return c.viol("new-item-after-handled-failure", "batch node %d (stop on error, failure handled first): worker %s started %d items after item %d had failed and the failure had been handled", mb.N, e.Task, newOn[e.Task], F.I-1)
+				}
+			}
+		}
+	}
+	return nil
+}
+
+// slotsHonest: C09 (c) / C11: a slot is the real outcome of an executed item or an error.
+func (c *octx) slotsHonest() *eng.Violation {
+	for _, bv := range c.batchViews() {
+		mb := bv.mb
+		if mb.PostIdx < 0 || len(bv.post) == 0 {
+			continue
+		}
+		got := splitList(bv.post[0].S3)
+		if len(got) != len(mb.Items) {
+			return c.viol("slot-count", "batch node %d: post received %d results for %d items", mb.N, len(got), len(mb.Items))
+		}
+		for ii, mi := range mb.Items {
+			n := 0
+			var lastEv simrt.Event
+			for _, e := range bv.evs {
+				if e.I-1 == ii {
+					n++
+					lastEv = e
+				}
+			}
+			switch {
+			case n == 0:
+				if !strings.HasPrefix(got[ii], "ER(") {
+					return c.viol("unexecuted-slot-reported-success", "batch node %d: item %d was never executed, yet post received %q for it (IsError()==false)", mb.N, ii, got[ii])
+				}
+			case n == len(mi.Lane) && !mi.Skipped:
+				if got[ii] != mi.Slot {
+					return c.viol("slot", "batch node %d: item %d was executed with outcome %q but its slot holds %q", mb.N, ii, mi.Slot, got[ii])
+				}
+			default:
+				// processing was cut short (cancellation): the slot must not claim success
+				if !strings.HasPrefix(got[ii], "ER(") && !strings.HasSuffix(lastEv.Kind, "_end") {
+					return c.viol("slot", "batch node %d: item %d was cut short yet its slot holds %q", mb.N, ii, got[ii])
+				}
+			}
+		}
+	}
+	return nil
 }
